@@ -18,7 +18,21 @@ Open Scope N_scope.
 Notation byte := N (only parsing).
 Notation bytes := (list N) (only parsing).
 
-Definition len (l : bytes) : N := N.of_nat (length l).
+(* length as an N (= N.of_nat (length l), WsProofs.len_length; written this way because N.of_nat is slow once extracted) *)
+Fixpoint len (l : bytes) : N := match l with [] => 0 | _ :: t => N.succ (len t) end.
+(* n <= len l, walking at most n cells *)
+Fixpoint has_len (l : bytes) (n : N) : bool :=
+  match l with
+  | [] => n =? 0
+  | _ :: t => if n =? 0 then true else has_len t (N.pred n)
+  end.
+(* length l <= k, walking at most k+1 cells *)
+Fixpoint le_len (l : bytes) (k : nat) : bool :=
+  match l, k with
+  | [], _ => true
+  | _ :: _, O => false
+  | _ :: t, S k' => le_len t k'
+  end.
 Definition nonempty (l : bytes) : bool := match l with [] => false | _ :: _ => true end.
 
 (* ---------- big-endian integers, masking ---------- *)
@@ -26,12 +40,13 @@ Fixpoint be (k : nat) (n : N) : bytes :=
   match k with O => [] | S k' => be k' (n / 256) ++ [n mod 256] end.
 Definition be_val (l : bytes) : N := fold_left (fun acc b => acc * 256 + b) l 0.
 
-(* maskXOR: byte i of the payload is XORed with key[i mod 4] (the unrolled 64/8-byte loops of the
-   implementation are tied to this by the differential run only) *)
+(* maskXOR: byte j of the payload is XORed with key[j mod 4]; i is the index into the key, kept in 0..3
+   (the unrolled 64/8-byte loops of the implementation are tied to this by the differential run only) *)
+Definition next_ki (i : nat) : nat := match i with S (S (S _)) => O | _ => S i end.
 Fixpoint mask_from (i : nat) (key : bytes) (p : bytes) : bytes :=
   match p with
   | [] => []
-  | b :: t => N.lxor b (nth (Nat.modulo i 4) key 0) :: mask_from (S i) key t
+  | b :: t => N.lxor b (nth i key 0) :: mask_from (next_ki i) key t
   end.
 
 Definition b2n (b : bool) : N := if b then 1 else 0.
@@ -208,7 +223,7 @@ Definition pop_key (o : oracle) : bytes * oracle :=
 Fixpoint split_frames (fuel : nat) (k : nat) (l : bytes) : list bytes :=
   match fuel with
   | O => [l]
-  | S f => if Nat.leb (length l) k then [l] else firstn k l :: split_frames f k (skipn k l)
+  | S f => if le_len l k then [l] else firstn k l :: split_frames f k (skipn k l)
   end.
 
 Definition chunks_of (flimit : N) (data : bytes) : list bytes :=
@@ -270,7 +285,7 @@ Definition next_frame (cfg : config) (st : state) : nf :=
       if too_large_wrap (msg_limit cfg) (msg_len st + h_n h) then NFErr ETooLarge
       else if (125 <? h_n h) && is_control (h_op h) then NFErr ECtlBig
       else if LIM63 <=? frame_total h then NFErr EPanic      (* int64 overflow, slice bounds panic, recovered *)
-      else if frame_total h <=? len (cache st) then
+      else if has_len (cache st) (frame_total h) then
         match valid_frame (enable_compression cfg) (h_op h) (h_fin h) (h_r1 h) (h_r2 h) (h_r3 h) (expecting st) with
         | Some e => NFErr e
         | None => NFFrame (frame_total h) h (body_of h (cache st))
